@@ -65,6 +65,15 @@ func init() {
 		enc := json.NewEncoder(w)
 		g := &Gen{r: rng}
 		env := &Env{Ns: NsMap{"p": uriU1, "q": uriU2}}
+		if a.fam == "bindings" {
+			one := mkJSON(Num{C: "fin", S: 1, N: 3, D: 2})
+			env.Vars = []EnvVar{{Sp: []string{}, Lo: ch("n"), Val: Val{T: "num", V: one}}, {Sp: uriU1, Lo: ch("s"), Val: Val{T: "str", V: mkJSON(ch("a b"))}},
+				{Sp: []string{}, Lo: ch("b"), Val: Val{T: "bool", V: mkJSON(true)}}}
+			env.Funcs = []EnvFunc{{Sp: uriU1, Lo: ch("f"), Kind: "arg", I: 2}, {Sp: []string{}, Lo: ch("here"), Kind: "ctxnode"},
+				{Sp: uriU2, Lo: ch("pos"), Kind: "ctxpos"}, {Sp: []string{}, Lo: ch("string"), Kind: "nargs"}}
+			g.numVars = []string{"n"}
+			g.boundFns = true
+		}
 		events, h := 0, 0
 		perDoc := 25
 		maxNodes := 24
